@@ -876,6 +876,103 @@ async fn stream_transport(r: &mut Rng) -> (String, String) {
     (sig, "ok".into())
 }
 
+/// C03: ports whose receiver does not consume, each with a pending operation (a send or a multi-port open
+/// request waiting for credits), must not stop another port of the same endpoint; once their receivers
+/// consume, the pending operations complete.
+async fn isolation(r: &mut Rng) -> (String, String) {
+    use remoc::chmux::PortReq;
+    let mut ca = cfg(r, None);
+    ca.shared_send_queue = r.range(1, 2) as usize;
+    ca.max_ports = 100;
+    let mut cb = cfg(r, None);
+    cb.max_ports = 100;
+    cb.connect_queue = 8;
+    cb.receive_buffer = *r.pick(&[4u32, 5, 7, 8, 16]);
+    let k = r.range(1, 3) as usize;
+    let mut kinds = Vec::new();
+    let mut p = conn::connect(ca.clone(), cb.clone()).await;
+    let mut starved = Vec::new();
+    for _ in 0..k {
+        let ((tx, _ra), (_tb, rx)) = conn::open_port(&mut p).await;
+        starved.push((tx, rx, _ra, _tb));
+    }
+    let ((mut tx_q, _ra_q), (_tb_q, mut rx_q)) = conn::open_port(&mut p).await;
+    // use up the credits of the starved ports
+    for (tx, ..) in starved.iter_mut() {
+        for _ in 0..64 {
+            if tx.try_send(&Bytes::from_static(b"x")).is_err() {
+                break;
+            }
+            quiesce().await;
+        }
+    }
+    // one pending operation per starved port
+    let mut pending = Vec::new();
+    let mut rxs = Vec::new();
+    let mut keep = Vec::new();
+    for (mut tx, rx, ra, tb) in starved {
+        let kind = r.below(2);
+        kinds.push(kind);
+        let n = r.range(1, 3);
+        let wait = r.chance(1, 2);
+        let len = r.range(1, 3 * cb.receive_buffer as u64) as usize;
+        pending.push(tokio::spawn(async move {
+            if kind == 0 {
+                tx.send(Bytes::from(vec![9u8; len])).await.is_ok()
+            } else {
+                let alloc = tx.port_allocator();
+                let mut ports = Vec::new();
+                for _ in 0..n {
+                    ports.push(PortReq::new(alloc.allocate().await));
+                }
+                tx.connect(ports, wait).await.is_ok()
+            }
+        }));
+        rxs.push(rx);
+        keep.push((ra, tb));
+    }
+    let sig = format!("isolation:q{}:k{k}:{}", ca.shared_send_queue, kinds.iter().map(|k| if *k == 0 { "s" } else { "c" }).collect::<String>());
+    for _ in 0..4 {
+        quiesce().await;
+    }
+    // port Q must work
+    let send_task = tokio::spawn(async move {
+        for _ in 0..3 {
+            if tx_q.send(Bytes::from_static(b"after")).await.is_err() {
+                return None;
+            }
+        }
+        Some(tx_q)
+    });
+    for _ in 0..10 {
+        quiesce().await;
+        let _ = recv_all_now(&mut rx_q).await;
+    }
+    if !send_task.is_finished() {
+        return (sig, "FAIL: C03 sends on a port whose receiver consumes are blocked by operations waiting for credits on other ports".into());
+    }
+    // the starved receivers consume (requests are dropped = rejected): every pending operation completes
+    for _ in 0..200 {
+        quiesce().await;
+        for rx in rxs.iter_mut() {
+            let _ = recv_all_now(rx).await;
+        }
+        if pending.iter().all(|t| t.is_finished()) {
+            break;
+        }
+    }
+    for (i, t) in pending.into_iter().enumerate() {
+        if !t.is_finished() {
+            return (sig, format!("FAIL: C03 the pending operation on starved port {i} did not complete although its receiver consumed everything"));
+        }
+        if t.await.ok() != Some(true) {
+            return (sig, format!("FAIL: C03 the pending operation on starved port {i} failed on a healthy connection"));
+        }
+    }
+    drop(keep);
+    (sig, "ok".into())
+}
+
 pub fn exec(inp: &[u128]) -> (Vec<u128>, String, String) {
     if inp.len() < 2 {
         return (vec![98], "net:malformed".into(), "ok".into());
@@ -892,6 +989,7 @@ pub fn exec(inp: &[u128]) -> (Vec<u128>, String, String) {
             2 => closing(&mut r).await,
             4 => blocking(&mut r).await,
             5 => stream_transport(&mut r).await,
+            6 => isolation(&mut r).await,
             _ => faults(&mut r).await,
         };
         remoc::exec::verif::set_defer_seed(0);
